@@ -26,7 +26,7 @@ import (
 // rule groups of checkers/rules/rules.go whose diagnostics promise an equivalent rewrite and that
 // Model_Rewrites covers (source text tie) and the differential oracle executes
 var coveredGroups = []string{"sloppyLen", "emptyStringTest", "stringXbytes", "wrapperFunc", "assignOp", "switchTrue", "unslice",
-	"stringsCompare", "yodaStyleExpr", "valSwap", "stringConcatSimplify", "timeExprSimplify", "offBy1"}
+	"stringsCompare", "yodaStyleExpr", "valSwap", "stringConcatSimplify", "timeExprSimplify", "offBy1", "equalFold"}
 
 type shippedRule struct {
 	group    string
@@ -160,6 +160,9 @@ type ruleSpec struct {
 	rewrite func(l *exprgen.Linted, w linter.Warning, body string) (orig, repl string, ok bool)
 	class   func(orig, repl string) string
 	weight  int // how many instances relative to the default (0 = 1)
+	// fixed: instances every run contains (the boundary questions of the matcher: how the literal 1 is matched,
+	// which operand forms count as $x), besides the sampled ones
+	fixed []string
 }
 
 var (
@@ -171,6 +174,7 @@ var (
 	swapRe       = regexp.MustCompile("^can re-write as `(.*)`$")
 	swapStmtsRe  = regexp.MustCompile(`tmp := [^;]+; [^;]+; [^;]+ = tmp`)
 	deferRe      = regexp.MustCompile("^can rewrite as `(.*)`$")
+	useMethodRe  = regexp.MustCompile("^use (.*) method in `(.*)`$")
 )
 
 func fromQuickFix(l *exprgen.Linted, w linter.Warning, _ string) (string, string, bool) {
@@ -245,7 +249,24 @@ func fmtClass(orig, repl string) string {
 var deferSpecs = []ruleSpec{
 	{checker: "deferUnlambda", kind: "stmts",
 		gen: func(p func(...string) string) string {
-			switch p("var", "var", "pkgfn", "late") {
+			// callee forms: a declared function, a package-qualified function, a func-typed variable, a method of
+			// a pointer variable, a func-typed field reached through a pointer variable — each with and without
+			// a re-assignment of the variable between the defer statement and the function's end
+			re := func(stmt string) string {
+				if p("y", "y", "n") == "y" {
+					return "; " + stmt
+				}
+				return ""
+			}
+			switch p("var", "var", "pkgfn", "late", "ptrmeth", "ptrmeth2", "ptrfield", "qual") {
+			case "ptrmeth":
+				return "func() { wp := w; defer func() { wp.flush() }()" + re("wp = &wr{}") + " }()"
+			case "ptrmeth2":
+				return "func() { wp := w; defer func() { wp.refill() }()" + re("wp = &wr{avail: 3}") + " }()"
+			case "ptrfield":
+				return "func() { ob := &obj{f: hi}; defer func() { ob.f(1) }()" + re("ob = &obj{f: hj}") + " }()"
+			case "qual":
+				return "func() { defer func() { strings.ToUpper(\"a\") }(); c = 2 }()"
 			case "pkgfn":
 				return "func() { defer func() { setG() }(); gxs = nil }(); c = len(gxs)"
 			case "late":
@@ -264,6 +285,9 @@ var deferSpecs = []ruleSpec{
 		class: func(orig, _ string) string {
 			if strings.Contains(orig, "cl = func()") {
 				return "func-variable-evaluated-at-defer"
+			}
+			if strings.Contains(orig, "wp.") || strings.Contains(orig, "ob.f(") {
+				return "receiver-variable-evaluated-at-defer"
 			}
 			return "unclassified"
 		}},
@@ -409,13 +433,33 @@ var ruleSpecs = append([]ruleSpec{
 	{checker: "wrapperFunc", kind: "expr",
 		gen: func(p func(...string) string) string {
 			s := func() string { return p("s", "t", "fs()", `"ab"`, "s + t", `""`) }
-			if p("s", "b") == "s" {
+			switch p("s", "s", "b", "b", "any", "repl", "brepl") {
+			case "s":
 				return "strings.Index(" + s() + ", " + s() + ") " + p(">= 0", "!= -1")
+			case "any":
+				return "strings.IndexAny(" + s() + ", " + s() + ") " + p(">= 0", "!= -1")
+			case "repl":
+				return "strings.Replace(" + s() + ", " + s() + ", " + s() + ", -1)"
+			case "brepl":
+				bb := func() string { return p("bs", "fbs()", "[]byte(s)", `[]byte("a")`) }
+				return "string(bytes.Replace(" + bb() + ", " + bb() + ", " + bb() + ", -1))"
 			}
 			b := func() string { return p("bs", "fbs()", "[]byte(s)", `[]byte("a")`) }
 			return "bytes.Index(" + b() + ", " + b() + ") " + p(">= 0", "!= -1")
 		},
-		rewrite: fromQuickFix, class: classPurity},
+		rewrite: func(l *exprgen.Linted, w linter.Warning, body string) (string, string, bool) {
+			if o, n, ok := fromQuickFix(l, w, body); ok {
+				return o, n, ok
+			}
+			// the Report-only wrappers name the function to use: `X.Replace(a, b, c, -1)` => `X.ReplaceAll(a, b, c)`
+			if m := useMethodRe.FindStringSubmatch(w.Text); m != nil && strings.HasSuffix(m[1], ".ReplaceAll") {
+				orig := m[2]
+				if i := strings.Index(orig, ".Replace("); i >= 0 && strings.HasSuffix(orig, ", -1)") {
+					return orig, orig[:i] + ".ReplaceAll(" + strings.TrimSuffix(orig[i+len(".Replace("):], ", -1)") + ")", true
+				}
+			}
+			return "", "", false
+		}, class: classPurity},
 	{checker: "stringsCompare", kind: "expr",
 		gen: func(p func(...string) string) string {
 			s := func() string { return p("s", "t", "fs()", `"ab"`, "s + t", `"é"`) }
@@ -470,10 +514,16 @@ var ruleSpecs = append([]ruleSpec{
 		}},
 	{checker: "unslice", kind: "expr",
 		gen: func(p func(...string) string) string {
-			return p("s[:]", "xs[:]", "bs[:]", "fs()[:]", "fxs()[:]", "(s + t)[:]", "len(xs[:])", "ms[:]", "mi[:]", "len(ma[:])", "len(pa[:])", "w.buf[:]", "mm[1][:]")
+			// operands of every sliceable kind; the value itself is observed (a slice of an array or of a pointer
+			// to an array is not the operand)
+			return p("s[:]", "xs[:]", "bs[:]", "fs()[:]", "fxs()[:]", "(s + t)[:]", "len(xs[:])", "ms[:]", "mi[:]", "len(ma[:])", "len(pa[:])", "w.buf[:]", "mm[1][:]",
+				"pa[:]", "ma[:]", "(&ma)[:]", "append(pa[:], 4)", "cap(ma[:]) + a")
 		},
 		rewrite: fromQuickFix, class: classPurity},
 	{checker: "assignOp", kind: "stmts", weight: 5,
+		fixed: []string{"a = a + 0x1", "a = a - 01", "a = a + 0b1", "a = a + 1_0", "p = p + 1.0", "p = p + 1", "p = p - 0x1", "mf = mf + 1", "mf = mf - 1",
+			"w.avail = w.avail - 1", "w.avail = w.avail + 0x1", "a = a + cOne", "xs[a] = xs[a] + 0o1", "mi[0] = mi[0] - 1", "ma[1] = ma[1] + 1",
+			"a = (a + 1)", "a = a + (1)", "(a) = a + 1", "a = (a) + 1", "u = u + 1", "s = s + \"1\"", "a = a + 2 - 1", "xs[a+1] = xs[a+1] + 1", "xs[a+1] = xs[1+a] + 1"},
 		// every operator of the rule group, every operand type it can be applied to (int, uint, float64,
 		// string, defined string type, slice element), both operand orders
 		gen: func(p func(...string) string) string {
@@ -481,10 +531,10 @@ var ruleSpecs = append([]ruleSpec{
 				xs, ys, ops []string
 			}
 			pools := []pool{
-				{[]string{"a", "b", "xs[a]", "xs[fi()]", "mi[0]", "ma[1]", "pa[2]"}, []string{"1", "b", "c", "fi()", "3", "a"},
+				{[]string{"a", "b", "xs[a]", "xs[fi()]", "mi[0]", "ma[1]", "pa[2]", "w.avail", "mi[a]", "xs[b+1]"}, []string{"1", "b", "c", "fi()", "3", "a", "cLim", "cOne", "0x1", "01", "a * b", "(b)"},
 					[]string{"+", "-", "*", "/", "%", "&", "|", "^", "<<", ">>", "&^"}},
 				{[]string{"u", "v"}, []string{"1", "v", "u", "fu()", "3"}, []string{"+", "*", "/", "%", "&", "|", "^", "<<", ">>", "&^"}},
-				{[]string{"p", "q"}, []string{"1", "q", "p", "ff()", "2.5"}, []string{"+", "-", "*", "/"}},
+				{[]string{"p", "q", "mf", "w.g"}, []string{"1", "q", "p", "ff()", "2.5", "1.0", "cF", "0x1"}, []string{"+", "-", "*", "/"}},
 				{[]string{"s", "t"}, []string{"t", "s", `"a"`, "fs()", `"é"`}, []string{"+"}},
 				{[]string{"ms"}, []string{"ms", `"a"`, "myStr(t)"}, []string{"+"}},
 				{[]string{"mm[0]", "w.buf[0]"}, []string{"t", `"b"`, "1"}, []string{"+"}},
@@ -511,10 +561,20 @@ var ruleSpecs = append([]ruleSpec{
 		}},
 	{checker: "valSwap", kind: "stmts",
 		gen: func(p func(...string) string) string {
-			x := p("a", "xs[a]", "xs[fi()]", "s", "xs[0]", "xs[b]")
-			y := p("b", "xs[b]", "xs[gi()]", "t", "xs[1]", "b")
-			if (x == "s") != (y == "t") {
+			x := p("a", "xs[a]", "xs[fi()]", "s", "xs[0]", "xs[b]", "w.avail", "mi[0]", "ma[0]", "mf")
+			y := p("b", "xs[b]", "xs[gi()]", "t", "xs[1]", "b", "c", "mi[1]", "ma[2]", "mg")
+			if (x == "s") != (y == "t") || (x == "mf") != (y == "mg") {
 				x, y = "a", "b"
+			}
+			switch p("plain", "plain", "plain", "around", "apart", "othertmp") {
+			case "around": // the three statements inside a longer list
+				return "c = 1; tmp := " + y + "; " + y + " = " + x + "; " + x + " = tmp; c = c + 2"
+			case "apart": // not adjacent: no swap idiom
+				return "tmp := " + y + "; c = 4; " + y + " = " + x + "; " + x + " = tmp"
+			case "othertmp": // the third statement reads another variable
+				if x == "a" || x == "xs[a]" || x == "xs[0]" || x == "xs[b]" || x == "w.avail" || x == "mi[0]" || x == "ma[0]" {
+					return "tmp := " + y + "; " + y + " = " + x + "; " + x + " = c; _ = tmp"
+				}
 			}
 			if p("v", "v", "v", "list") == "list" {
 				// an operand reached THROUGH the other one: a linked list step
@@ -542,14 +602,22 @@ var ruleSpecs = append([]ruleSpec{
 		}},
 	{checker: "switchTrue", kind: "stmts",
 		gen: func(p func(...string) string) string {
-			return "switch true {\n\tcase " + p("a > b", "fb()", "k") + ":\n\t\tc = 1\n\tcase " + p("a == b", "fb()", "l") + ":\n\t\tc = 2\n\tdefault:\n\t\tc = 3\n\t}"
+			// the tag is matched by its spelling: the predeclared constant, and a variable that shadows it
+			pro := p("", "", "", "true := l; k = true; ", "true := a > 1; k = true; ")
+			tag := p("true", "true", "true", "true", "k", "false", "cT > 1")
+			return pro + "switch " + tag + " {\n\tcase " + p("a > b", "fb()", "k", "a > cLim") + ":\n\t\tc = 1\n\tcase " + p("a == b", "fb()", "l") + ":\n\t\tc = 2\n\tdefault:\n\t\tc = 3\n\t}"
 		},
 		rewrite: func(l *exprgen.Linted, w linter.Warning, body string) (string, string, bool) {
 			if !strings.Contains(w.Text, "replace 'switch true {}' with 'switch {}'") {
 				return "", "", false
 			}
 			return body, strings.Replace(body, "switch true {", "switch {", 1), true
-		}, class: classPurity},
+		}, class: func(orig, _ string) string {
+			if strings.Contains(orig, "true :=") {
+				return "shadowed-true"
+			}
+			return classPurity(orig, "")
+		}},
 }, append(append(handSpecs, fmtSpecs...), deferSpecs...)...)
 
 const rulesLintHeader = "package p\n\nimport (\n\t\"bytes\"\n\t\"fmt\"\n\t\"strings\"\n\t\"time\"\n)\n\nvar _ = bytes.Equal\nvar _ = strings.Index\nvar _ time.Time\nvar _ = fmt.Sprint\n"
@@ -613,6 +681,12 @@ func runRules(meta *common.Meta, tier string, seed int64, outDir string) {
 		if sp.weight > 0 {
 			want *= sp.weight
 		}
+		for _, b := range sp.fixed {
+			if !seen[b] {
+				seen[b] = true
+				progs = append(progs, &ruleProg{fn: fmt.Sprintf("r%d", len(progs)), checker: sp.checker, kind: sp.kind, body: b})
+			}
+		}
 		for tries := 0; tries < want*6 && len(seen) < want; tries++ {
 			b := sp.gen(pick)
 			if seen[b] {
@@ -657,6 +731,7 @@ func runRules(meta *common.Meta, tier string, seed int64, outDir string) {
 		p    *ruleProg
 		text string
 	}
+	stmtObs := map[string][]string{}
 	for _, sp := range ruleSpecs {
 		ws, err := l.Run(sp.checker)
 		if err != nil {
@@ -667,6 +742,7 @@ func runRules(meta *common.Meta, tier string, seed int64, outDir string) {
 			if p == nil || p.checker != sp.checker {
 				continue
 			}
+			stmtObs[p.fn] = append(stmtObs[p.fn], w.Text)
 			orig, repl, ok := sp.rewrite(l, w, p.body)
 			if !ok {
 				continue
@@ -711,6 +787,7 @@ func runRules(meta *common.Meta, tier string, seed int64, outDir string) {
 	}
 	meta.Distribution["rules_fired"] = fired
 	meta.Distribution["rule_programs"] = len(keep)
+	runStmtTie(meta, outDir, l, keep, stmtObs)
 	meta.Distinct += len(dcs)
 	mm, evals, err := exprgen.RunDiff(filepath.Join(outDir, "diff_rules"), dcs)
 	if err != nil {
@@ -721,6 +798,14 @@ func runRules(meta *common.Meta, tier string, seed int64, outDir string) {
 	}
 	meta.Evaluations += evals
 	meta.Distribution["rule_pair_evaluations"] = evals
+	// suggestions the compiler rejects cannot be executed (their validity is C09's subject): listed, not judged here
+	var notCompilable []string
+	for _, c := range dcs {
+		if c.Uncompilable {
+			notCompilable = append(notCompilable, c.Tag.(tag).p.checker+": `"+c.Orig+"` => `"+c.New+"`")
+		}
+	}
+	meta.Distribution["rule_pairs_not_compilable"] = notCompilable
 	sort.SliceStable(mm, func(i, j int) bool { return len(mm[i].Case.Orig) < len(mm[j].Case.Orig) })
 	for _, m := range mm {
 		t := m.Case.Tag.(tag)
@@ -935,6 +1020,9 @@ func runSynthDiff(meta *common.Meta, outDir string) {
 		groups[g] = true
 	}
 	delete(groups, "offBy1") // its suggestion is a bug fix, not an equivalence claim
+	// equalFold ("consider replacing with"): not among the checkers C10 enumerates; its rule text is tied and its
+	// semantics modelled (C10_equal_fold_*), but it is not executed as an equivalence claim
+	groups["equalFold"] = false
 	cases, hits, misses := valdiff.Collect(
 		func(g string, r ir.Rule) bool { return groups[g] && r.SuggestTemplate != "" }, 1500,
 		func(group string, w linter.Warning, l *exprgen.Linted) (token.Pos, token.Pos, string, string, bool) {
